@@ -21,6 +21,13 @@ fam({'C01': ('fifo', 'fifo'), 'C02': ('txn', 'txn'), 'C03': ('retention', 'reten
      'C04': ('reclaim', 'reclaim'), 'C05': ('wake', 'wake'), 'C12': ('close', 'close')},
     driver='buffer', tv='BufferTV', mc_quick=[('BufferMC', 'BufferMC_quick')], mc_thorough=[('BufferMC', 'BufferMC')],
     n=(70, 150, 1500, 4000))
+# the lock / condition-variable level protocol of cleaner, cooldown timer, WaitCond watcher and a blocked Get; the _neg
+# configurations switch a repaired / seeded defect back on and MUST be rejected by TLC
+for _pid, _cfgs in {'C04': ['BufferL2', 'BufferL2_nocool', 'BufferL2_fixed', 'BufferL2_fixed0', 'BufferL2_d1_neg', 'BufferL2_d4_neg'],
+                    'C05': ['BufferL2', 'BufferL2_nocool', 'BufferL2_wake_neg']}.items():
+    F[_pid] = dict(F[_pid])
+    F[_pid]['mc_quick'] = list(F[_pid]['mc_quick']) + [('BufferL2', c) for c in _cfgs]
+    F[_pid]['mc_thorough'] = list(F[_pid]['mc_thorough']) + [('BufferL2', c) for c in _cfgs] + [('BufferL2', 'BufferL2_big')]
 F['C12']['legs'] = [dict(driver='channel', profile='close', prop='close', tv='ChannelTV', n=(60, 120, 1000, 3000),
                        mc_quick=[('ChannelMC', 'ChannelMC')], mc_thorough=[('ChannelMC', 'ChannelMC_big')])]
 fam({'C13': ('main', 'all')},
